@@ -4,6 +4,7 @@ carry is the temporal protocol the unsafe sites rely on; machine-level memory sa
 -/
 import DesyncModel.Spec
 import DesyncModel.Tables
+import DesyncModel.FactDrop
 import DesyncModel.Lemmas
 import DesyncModel.Setters
 
